@@ -408,7 +408,8 @@ Footprint == /\ leak = 0
              /\ Cardinality(DOMAIN stored) <= Cardinality(Cells)
              /\ Cardinality(evald) <= Cardinality(Cells)
 \* Closure is extensive, idempotent and contains everything a focused formula cell mentions (C13)
-ClosureLaws == \A c \in Cells : /\ c \in Closure({c})
+\* (which cells are formulas and what they mention never changes along a behaviour: the laws are evaluated in the initial states)
+ClosureLaws == Len(hist) > 0 \/ \A c \in Cells : /\ c \in Closure({c})
                                  /\ Closure(Closure({c})) = Closure({c})
                                  /\ (content[c].c = "formula" => (RefsOf(content[c].ast, c[1]) \cap Cells) \subseteq Closure({c}))
 \* idempotence: evaluating the same cell again, by any evaluator, gives the same response
